@@ -123,12 +123,24 @@ package martian
 //@ preserves proxyConn.* Proxy.* bufio.ReadWriter.* http.Response.StatusCode http.Response.Request http.Request.Method http.Response.Header http.Request.Header http.Request.URL http.Request.Body http.Response.Body
 
 // Upstream activity: a round trip, a CONNECT dial.
-//@ func (*Proxy).roundTrip
+//@ func (http.RoundTripper).RoundTrip as (rt http.RoundTripper, req *http.Request) (result0 *http.Response, result1 error)
 //@ trusted
+//@ modifies *
+//@ preserves proxyConn.* Proxy.* bufio.ReadWriter.* http.Request.Method http.Request.Header http.Request.URL http.Request.Body
+//@ ensures result1 == nil ==> result0 != nil && result0.Body != nil && result0.Header != nil && result0.Request != nil
+
+// roundTrip (C02): one upstream exchange; a response that cannot have a body
+// (HEAD, 1xx other than 101, 204, 304) is handed on without one - whatever the
+// upstream sent as "body" is closed and dropped, so it cannot leak into the
+// next message on the client connection.
+//@ func (*Proxy).roundTrip
+//@ property C02 C13
+//@ ghostset upstream() := old(upstream()) + 1
+//@ requires p != nil && req != nil && p.rt != nil
 //@ modifies *, upstream()
-//@ preserves proxyConn.* Proxy.* bufio.ReadWriter.* http.Response.StatusCode http.Response.Request http.Request.Method http.Response.Header http.Request.Header http.Request.URL http.Request.Body http.Response.Body
-//@ ensures upstream() == old(upstream()) + 1
+//@ preserves proxyConn.* Proxy.* bufio.ReadWriter.* http.Request.Method http.Request.Header http.Request.URL http.Request.Body
 //@ ensures result1 == nil ==> result0 != nil && result0.Body != nil && result0.Header != nil
+//@ ensures result1 == nil && !p.TestingSkipRoundTrip && (result0.Request.Method == "HEAD" || result0.StatusCode / 100 == 1 || result0.StatusCode == 204 || result0.StatusCode == 304) && result0.StatusCode != 101 ==> (result0.Body is http.noBody)
 
 //@ func (*Proxy).Connect
 //@ trusted
@@ -418,7 +430,7 @@ package martian
 // causes no upstream activity; a request read while shutting down is not forwarded.
 //@ func (*proxyConn).handle
 //@ property C13 C04 C11
-//@ requires p != nil && p.Proxy != nil && p.conn != nil && p.brw != nil && p.brw.Writer != nil && p.brw.Reader != nil && lockDepth() == 0
+//@ requires p != nil && p.Proxy != nil && p.conn != nil && p.brw != nil && p.brw.Writer != nil && p.brw.Reader != nil && lockDepth() == 0 && p.rt != nil
 //@ modifies *, nRead(), nWrote(), wroteStatus(), sawClosing(), modReqFailed(), upstream(), readOK(), wrotePA(), wErr(), nMITM()
 //@ preserves Proxy.* proxyConn.Proxy proxyConn.brw bufio.ReadWriter.*
 //@ ensures p.conn != nil
@@ -571,13 +583,13 @@ package martian
 // was; once shutdown has begun no request is read from the connection.
 //@ func (*Proxy).handleLoop
 //@ property C11 C13 C15
-//@ requires p != nil && conn != nil && p.conns != nil && lockDepth() == 0
+//@ requires p != nil && conn != nil && p.conns != nil && lockDepth() == 0 && p.rt != nil
 //@ modifies *, nConnClose(conn), a32(p.connsWg), nRead(), nWrote(), wroteStatus(), sawClosing(), modReqFailed(), upstream(), readOK(), wrotePA(), wErr(), nMITM()
 //@ ensures nConnClose(conn) == old(nConnClose(conn)) + 1
 //@ ensures a32(p.connsWg) == old(a32(p.connsWg))
 //@ ensures !(conn in p.conns)
 //@ loop 0:
-//@   invariant p != nil && pc != nil && pc.Proxy == p && pc.conn != nil && pc.brw != nil && pc.brw.Writer != nil && pc.brw.Reader != nil
+//@   invariant p != nil && p.rt != nil && pc != nil && pc.Proxy == p && pc.conn != nil && pc.brw != nil && pc.brw.Writer != nil && pc.brw.Reader != nil
 //@   invariant p.conns == old(p.conns) && p.conns != nil
 //@   invariant nConnClose(conn) == old(nConnClose(conn)) && a32(p.connsWg) == old(a32(p.connsWg)) + 1 && lockDepth() == 0
 
@@ -601,7 +613,7 @@ package martian
 //@ trusted
 //@ modifies *
 //@ preserves maps(map[net.Conn]struct{})
-//@ ensures p.conns != nil && (old(p.conns) != nil ==> p.conns == old(p.conns))
+//@ ensures p.conns != nil && (old(p.conns) != nil ==> p.conns == old(p.conns)) && p.rt != nil
 //@ pure martian.Shutdown$2 (*martian.Proxy).Shutdown$2
 //@ func (*Proxy).Shutdown
 //@ property C11
@@ -626,7 +638,7 @@ package martian
 //@ modifies **
 //@ ensures connUse() == old(connUse())
 //@ loop 0:
-//@   invariant connUse() == old(connUse()) && p != nil && l != nil && p.conns != nil && lockDepth() == 0
+//@   invariant connUse() == old(connUse()) && p != nil && l != nil && p.conns != nil && p.rt != nil && lockDepth() == 0
 
 // Close (C11): every connection in the registry is closed - whether or not a
 // Shutdown has been attempted before (the closing flag is raised once, the
